@@ -67,6 +67,23 @@ CLAIMED = {
                      "correspondence on reference-encoder files",
         "design_ref": "DESIGN.md section 7 (C03)",
     },
+    "C04": {
+        "text": "Theorems for every history of writes/finalizes with an index destination (n >= 0 shapes of any sizes): "
+                "C04_shx_layout (.shx = the .shp header with length 50+4n, then one big-endian (offset, content length) entry per "
+                "record), C04_entries (entry i = (50 + sum_{j<i}(4+len_j), (size_in_bytes+4)/2)), "
+                "C04_entries_address_records (at byte 2*offset_i of the .shp the i-th record starts), C04_reader (for EVERY "
+                "history of reader calls on the two files - iterate any number of items, random access, seek, count, size hint - "
+                "the index parses to n entries and each call returns what the abstract reader over the written shapes returns: "
+                "count = n, read_nth i = i-th shape for i < n and nothing beyond, size hint = shapes still to come, iteration as "
+                "without index). Tie: writer and reader histories on generated files incl. one with more than 1024 records; "
+                "oracle: independent parse of the real .shx against a walk of the real .shp; path-created pairs compared with the "
+                "in-memory bytes.",
+        "note": COMMON_NOTE + "Guards FileFits, RecordsFit. Files created by path (BufWriter<File>) are covered by the harness "
+                "comparison only.",
+        "technique": "Coq proof (writer invariant + refinement of the indexed reader to an abstract reader, for all call "
+                     "histories) + differential correspondence + independent index oracle",
+        "design_ref": "DESIGN.md section 7 (C04)",
+    },
     "C09": {
         "text": "Theorems over every history of calls {write s, finalize} (any shapes of any types, rejected writes included; any "
                 "length), with or without index destination, ending in drop or finalize-then-drop: C09_finalize_irrelevant (both "
@@ -93,6 +110,33 @@ CLAIMED = {
         "technique": "Coq proof (writer invariant, case analysis on the type comparison) + exhaustive type-pair differential "
                      "correspondence + trace oracle",
         "design_ref": "DESIGN.md section 7 (C10)",
+    },
+    "C14": {
+        "text": "Theorem C14_index_governs: for any .shp bytes with a valid header and any index such that each entry's offset "
+                "points at the bytes of a conformant record (Indexed: arbitrary filler of any length and content before, between "
+                "and after, any physical order, overlaps allowed) and for every history of reader calls, each call returns what "
+                "the abstract reader over the records in INDEX order returns; corollaries C14_iteration_is_index_order, "
+                "C14_nth_agrees. Tie: reference-encoder files with permuted physical order and filler gaps (odd and even word "
+                "counts, random and record-like content), generic and typed, several call histories; oracle on the real output.",
+        "note": COMMON_NOTE + "Indexed includes zlen data < 2^63 (positions fit usize).",
+        "technique": "Coq proof (invariant of the indexed reader: source position known or marked unknown; refinement to an "
+                     "abstract reader) + differential correspondence on permuted/filler layouts",
+        "design_ref": "DESIGN.md section 7 (C14)",
+    },
+    "C15": {
+        "text": "Theorem C15_history: in every reader state satisfying the invariant RInv (in particular every state reached by any "
+                "earlier history of calls), any further history of calls {iterate j items, random access, seek, count, size "
+                "hint} returns exactly what the abstract reader (records, next position) returns and re-establishes RInv; "
+                "C15_nth_and_count_stable, C15_iteration, C15_partial_iteration, C15_positions spell out the abstract reader "
+                "(random access independent of position; iteration yields the records from the current position - 0 when fresh "
+                "or after a successful random access, min(k,n) after seek(k), where the previous iteration stopped otherwise - "
+                "to the last, then ends). Tie: exhaustive bounded call histories on files with different-size and equal-size "
+                "records.",
+        "note": COMMON_NOTE + "The theorem is about ShapeReader with an index; the complete Reader's attribute rows following "
+                "the same positions is exercised by the pair histories of C08 (dbase modelled as a row store).",
+        "technique": "Coq proof (refinement of the reader state machine to an abstract reader, by induction over call histories) "
+                     "+ exhaustive bounded-history differential correspondence",
+        "design_ref": "DESIGN.md section 7 (C15)",
     },
     "C18": {
         "text": "Theorem for every shape value (unbounded part counts and lengths): bytes emitted by write_to = size_in_bytes, "
